@@ -147,6 +147,16 @@ EntryLists == {<<a>> : a \in Entries} \cup
               UNION {{<<a, [b EXCEPT !.index = 2]>> : b \in {x \in Entries : x.sel # a.sel}} : a \in Entries} \cup
               UNION {UNION {{<<a, [b EXCEPT !.index = 2], [c EXCEPT !.index = 900]>> : c \in {x \in Entries : x.mode = 1 - b.mode /\ x.sel # a.sel /\ x.sel # b.sel}}
                             : b \in {x \in Entries : x.ipsec_proto = 50 /\ x.sel # a.sel}} : a \in {x \in Entries : x.ipsec_proto = 51}}
+\* Xfrm.create_child_sa: the two kernel SAs of one CHILD_SA.  Which half of KEYMAT protects which direction follows from the role in the EXCHANGE that
+\* negotiated the CHILD_SA (the exchange initiator sends with SK_ei / SK_ai, RFC 7296 2.17) - not from the role in the IKE_SA, which may be the opposite one
+KeyRing == [ei |-> Key(32, 21), er |-> Key(32, 22), ai |-> Key(32, 23), ar |-> Key(32, 24)]
+ChildLife == [unlimited |-> FALSE, secs |-> <<0, 0, 0, 60>>]
+ChildPair(sel, pr, m, exInit) ==
+  << Sa(sel, <<1, 2, 3, 4>>, pr, m, ChildLife, [ealg |-> CBC, ekey |-> IF exInit THEN KeyRing.ei ELSE KeyRing.er, aalg |-> HSHA256, akey |-> IF exInit THEN KeyRing.ai ELSE KeyRing.ar]),
+     [Sa(Rev(sel), <<5, 6, 7, 8>>, pr, m, ChildLife, [ealg |-> CBC, ekey |-> IF exInit THEN KeyRing.er ELSE KeyRing.ei, aalg |-> HSHA256, akey |-> IF exInit THEN KeyRing.ar ELSE KeyRing.ai])
+        EXCEPT !.src = <<192, 168, 0, 2>>, !.dst = <<192, 168, 0, 1>>] >>
+ChildPairs == {[sel |-> sel, ipsec_proto |-> pr, mode |-> m, exchange_initiator |-> x, ike_initiator |-> k, keyring |-> KeyRing, intents |-> ChildPair(sel, pr, m, x)] :
+                 sel \in {BaseSel, Sel(<<10, 0, 0, 0>>, <<10, 1, 2, 3>>, 8, 32, 256, 0, 17)}, pr \in {50, 51}, m \in {0, 1}, x \in BOOLEAN, k \in BOOLEAN}
 My4 == <<192, 168, 0, 1>>   Peer4 == <<192, 168, 0, 2>>
 EntryIntents(e) == << [sel |-> e.sel, src |-> My4, dst |-> Peer4, ipsec_proto |-> e.ipsec_proto, mode |-> e.mode, dir |-> 1, index |-> <<0, e.index * 8 + 1>>],
                       [sel |-> Rev(e.sel), src |-> Peer4, dst |-> My4, ipsec_proto |-> e.ipsec_proto, mode |-> e.mode, dir |-> 0, index |-> <<0, 0>>],
@@ -168,6 +178,7 @@ ASSUME \A l \in EntryLists : \A k \in 1..Len(ListIntents(l)) : LET b == EncNewPo
 Vectors == [layout |-> L, const |-> C,
             newsa |-> {[i |-> i, b |-> EncNewSa(i)] : i \in NewSas}, delsa |-> {[i |-> i, b |-> EncDelSa(i)] : i \in DelSas},
             newpolicy |-> {[i |-> i, b |-> EncNewPolicy(i)] : i \in Policies},
+            child_pairs |-> {[c |-> c, requests |-> <<EncNewSa(c.intents[1]), EncNewSa(c.intents[2])>>] : c \in ChildPairs},
             policy_lists |-> {[entries |-> l, intents |-> ListIntents(l), requests |-> [k \in 1..Len(ListIntents(l)) |-> EncNewPolicy(ListIntents(l)[k])]] : l \in EntryLists}, flush |-> {[policy |-> p, b |-> EncFlush(p)] : p \in BOOLEAN}]
 ASSUME OutFile = "" \/ JsonSerialize(OutFile, Vectors)
 ASSUME PrintT(<<"CASES", Cardinality(NewSas), Cardinality(DelSas), Cardinality(Policies)>>)
